@@ -59,6 +59,10 @@ func (loader *VeneersLoader) load(reader io.Reader) (rewrite.LanguageRules, erro
 		return rewrite.LanguageRules{}, err
 	}
 
+	if err := ExpectSingleDocument(decoder); err != nil {
+		return rewrite.LanguageRules{}, err
+	}
+
 	if veneers.Package == "" {
 		return rewrite.LanguageRules{}, fmt.Errorf("missing 'package' statement in veneers file '%s'", reader)
 	}
